@@ -952,6 +952,13 @@ func foTableScenarios() []foScenario {
 								c.SR = sr
 								out = append(out, foScenario{Cfg: c, Keys: []foKey{k}, Threads: []foThread{{Key: 1}}, Builds: []foBuild{{OK: bok}},
 									FaultAt: map[int]bool{}, SchedSeed: 1, Label: "table"})
+								if state == "stale" && !msSet {
+									// the same cell under a negative MaxStaleness
+									cn := c
+									cn.MS = -time.Second
+									out = append(out, foScenario{Cfg: cn, Keys: []foKey{k}, Threads: []foThread{{Key: 1}}, Builds: []foBuild{{OK: bok}},
+										FaultAt: map[int]bool{}, SchedSeed: 1, Label: "table"})
+								}
 							}
 						}
 					}
@@ -977,8 +984,9 @@ func expectTable(sc foScenario) (val string, errKind string, built bool) {
 			return "built", "", true
 		}
 		return "", "builder-error", true
-	case k.State == "stale" && !sc.Cfg.SU:
+	case k.State == "stale" && !sc.Cfg.SU && sc.Cfg.MS >= 0:
 		return "seeded", "", true // served immediately, build runs in background
+		// (a negative MaxStaleness admits no staleness at all - only 0 means "unlimited": an expired value is then too stale)
 	default: // stale with SyncUpdate, or too stale: blocks on the build
 		if bok {
 			return "built", "", true
